@@ -70,6 +70,7 @@ pub fn gen_c02(out: &mut dyn Write, thorough: bool, seed: u64) {
             writeln!(out, "S Fraw:{},setbs:{},obs:TBKGIW c02", hexs(&text), ls).unwrap();
         });
     }
+    scale_c02(out, &mut r);
     // random: longer texts, with tags on some characters
     let count = if thorough { 30000 } else { 1500 };
     for _ in 0..count {
@@ -96,6 +97,90 @@ pub fn gen_c02(out: &mut dyn Write, thorough: bool, seed: u64) {
 }
 
 
+/// sizes around the powers of two at which narrow counters, block-wise scans and fixed buffers change behaviour
+pub const SCALE_SIZES: &[usize] = &[15, 16, 17, 31, 33, 64, 127, 128, 129, 255, 256, 257, 300];
+
+/// long sentences (C02): runs of non-boundaries longer than any block size with unknown labels placed at the start, in the
+/// middle and at the end of a run, and fully labelled long sentences
+pub fn scale_c02(out: &mut dyn Write, r: &mut Rng) {
+    for &n in SCALE_SIZES {
+        let text: String = (0..n).map(|i| ['a', '漢', 'カ', 'b', '𠮷', 'é'][i % 6]).collect();
+        for pat in 0..8 {
+            let labels: String = (0..n - 1)
+                .map(|i| match pat {
+                    0 => 'N',
+                    1 => if i == 0 { 'U' } else { 'N' },
+                    2 => if i == n - 2 { 'U' } else { 'N' },
+                    3 => if i == n / 2 { 'U' } else { 'N' },
+                    4 => if i % 20 == 19 { 'W' } else if i % 20 == 3 { 'U' } else { 'N' },
+                    5 => if i % 17 == 16 { 'W' } else { 'N' },
+                    6 => *r.pick(&['N', 'N', 'N', 'N', 'N', 'W', 'U']),
+                    _ => 'W',
+                })
+                .collect();
+            writeln!(out, "S Fraw:{},setbs:{},obs:TBKGIW c02", hexs(&text), labels).unwrap();
+        }
+    }
+}
+
+/// long sentences, delimiters near the end, many tags on one token, long tags (C03: tokenized; C04: partial annotation)
+pub fn scale_formats(out: &mut dyn Write, r: &mut Rng, partial: bool) {
+    let (obs, oracle) = if partial { ("TBKGP", "c04rt") } else { ("TBKGIW", "c03rt") };
+    let special: &[char] = if partial { &[' ', '/', '\\', '-', '|'] } else { &[' ', '/', '\\'] };
+    for &n in SCALE_SIZES {
+        // a long text of 3-byte characters with ONE special character at varying distance from the end (or none)
+        for back in [0usize, 1, 2, 5, 15, 16, 17, 40] {
+            if back >= n {
+                continue;
+            }
+            let sp = *r.pick(special);
+            let text: String = (0..n).map(|i| if back > 0 && i == n - back { sp } else { ['あ', '漢', 'カ'][i % 3] }).collect();
+            let labels: String = (0..n - 1).map(|i| if partial { ['N', 'N', 'W', 'U'][(i / 7) % 4] } else if i % 23 == 22 { 'W' } else { 'N' }).collect();
+            // one tag on the last character, containing a special character as well
+            writeln!(out, "S Fraw:{},setbs:{},reset:1,sett:{}:{},obs:{obs} {oracle}", hexs(&text), labels, n - 1, hexs(&format!("t{sp}g"))).unwrap();
+        }
+    }
+    // many tags on one token / character, and long tags
+    for &k in &[8usize, 17, 255, 256, 257, 300] {
+        let text = "ab c";
+        let n = text.chars().count();
+        let labels = if partial { "WUN" } else { "WNN" };
+        let mut ops = format!("Fraw:{},setbs:{},reset:{k}", hexs(text), labels);
+        // all k slots of the last character, the last slot only of the first one
+        for j in 0..k {
+            ops.push_str(&format!(",sett:{}:{}", (n - 1) * k + j, hexs(&format!("t{j}"))));
+        }
+        ops.push_str(&format!(",sett:{}:{}", k - 1, hexs("z")));
+        writeln!(out, "S {ops},obs:{obs} {oracle}").unwrap();
+    }
+    for &len in &[255usize, 256, 257, 1000, 4096, 4097] {
+        let tag: String = (0..len).map(|i| ['t', 'あ', '/', ' '][i % 4]).collect();
+        writeln!(out, "S Fraw:{},setbs:W,reset:1,sett:1:{},obs:{obs} {oracle}", hexs("ab"), hexs(&tag)).unwrap();
+    }
+}
+
+/// long and heavily tagged inputs through the parsers directly (C05), as constructor and as update of a used sentence
+pub fn scale_c05(out: &mut dyn Write) {
+    for &k in &[255usize, 256, 257, 300] {
+        let tags: String = (0..k).map(|j| format!("/t{j}")).collect();
+        for (kind, input) in [("tok", format!("ab{tags} c/x")), ("tok", format!("a{}", "/".repeat(k))), ("part", format!("a{tags}-b|c/y")), ("part", format!("a|b{}", "/".repeat(k)))] {
+            let h = hexs(&input);
+            writeln!(out, "S F{kind}:{h},obs c05").unwrap();
+            writeln!(out, "S tok:612f78206263,{kind}:{h},obs,raw:6162,obs c05").unwrap();
+        }
+    }
+    for &n in SCALE_SIZES {
+        let raw: String = (0..n).map(|i| ['a', '漢', ' ', 'カ'][i % 4]).collect();
+        let tok: String = (0..n).map(|i| format!("{}{}", if i > 0 && i % 5 == 0 { " " } else { "" }, ['a', '漢', 'カ'][i % 3])).collect();
+        let part: String = (0..n).map(|i| format!("{}{}", if i > 0 { ["-", "|", " "][i % 3] } else { "" }, ['a', '漢', 'カ'][i % 3])).collect();
+        for (kind, input) in [("raw", raw), ("tok", tok), ("part", part)] {
+            let h = hexs(&input);
+            writeln!(out, "S F{kind}:{h},obs c05").unwrap();
+            writeln!(out, "S part:612f782d62,{kind}:{h},obs c05").unwrap();
+        }
+    }
+}
+
 /// every Unicode scalar value (except NUL, which `from_raw` rejects) as a token of its own and as a tag, 64 per case
 pub fn gen_all_scalars(out: &mut dyn Write, oracle: &str) {
     let mut chunk = String::new();
@@ -121,6 +206,7 @@ pub fn gen_c03(out: &mut dyn Write, thorough: bool, seed: u64) {
     for t in ["a\\ b/x\\/y c", "a/x//z b", "\\\\/\\ ", "a//", "a\\", "\\"] {
         writeln!(out, "S Ftok:{},obs:TBKGIW c03idem", hexs(t)).unwrap();
     }
+    scale_formats(out, &mut r, false);
     // round trip: arbitrary fully segmented sentences with tags on tokens
     let count = if thorough { 200000 } else { 6000 };
     for _ in 0..count {
@@ -164,6 +250,7 @@ pub fn gen_c04(out: &mut dyn Write, thorough: bool, seed: u64) {
         }
         writeln!(out, "S {ops},obs:TBKGP c04rt").unwrap();
     }
+    scale_formats(out, &mut r, true);
     let count = if thorough { 200000 } else { 6000 };
     for _ in 0..count {
         let text = rand_text(&mut r, 1, 10, 35);
@@ -260,6 +347,7 @@ pub fn gen_c05(out: &mut dyn Write, thorough: bool, seed: u64) {
             }
         }
     }
+    scale_c05(out);
     writeln!(out, "S Fraw:-,obs c05\nS Ftok:-,obs c05\nS Fpart:-,obs c05\nS raw:-,obs c05\nS tok:-,obs c05\nS part:-,obs c05").unwrap();
     // exhaustive: all op sequences up to length 3 over a 9-op alphabet
     let alpha: Vec<String> = vec![
